@@ -21,11 +21,12 @@ ASSUMPTIONS = [
 BOUNDS = {"quick": dict(D=[2, 3], shapes=["3x2", "2x2x2", "3x3"], N=[1, 2], steps=[1]), "thorough": dict(D=[2, 3], shapes=["3x2", "2x2x2", "3x3", "3x3x3"], N=[1, 2], steps=[1, 2])}
 
 
-def _vectors(ctx, name, N, D, shape, scale=1 / 16):
+def _vectors(ctx, name, N, D, shape, scale=1 / 16, bounded=False):
     n = N * D
     for m in shape:
         n *= m
-    return ctx.reals(name, [(((5 * i) % 13) - 6) * scale for i in range(n)], nice=(-1, 1)).reshape((N, D) + tuple(shape))
+    kw = dict(ge=-1, le=1) if bounded else {}
+    return ctx.reals(name, [(((5 * i) % 13) - 6) * scale for i in range(n)], nice=(-1, 1), **kw).reshape((N, D) + tuple(shape))
 
 
 def ob_axes(ctx, D, N, A, single):
@@ -91,7 +92,7 @@ def ob_sample(ctx, D, a, N, per_field_target):
     srcs = [geom.concrete_grid(D, ctx.seed, k, align_corners=a, sizes=sizes) for k in range(N)]
     tshape_sizes = tuple(reversed((2, 3) if D == 2 else (2, 2, 3)))
     tgts = [geom.concrete_grid(D, ctx.seed, k, align_corners=a, sizes=tshape_sizes).center(srcs[k].center() + 0.125) for k in range(N if per_field_target else 1)]
-    v = _vectors(ctx, "v", N, D, shape, 1 / 8)
+    v = _vectors(ctx, "v", N, D, shape, 1 / 8, bounded=(N > 1 and not per_field_target))
     cube_axes = "cube_corners" if a else "cube"
     fw = _cube_field_in(ctx, srcs, v, "world", a)
     arg = tgts if per_field_target else tgts[0]
@@ -103,7 +104,12 @@ def ob_sample(ctx, D, a, N, per_field_target):
         out = f.sample(arg, padding="border")
         ctx.eq(torch.tensor(list(out.shape)), torch.tensor(list(ref.shape)), f"sample of {A}-vectors: shape (N fields)")
         ctx.eq(torch.tensor([len(out.grids())]), torch.tensor([N]), f"sample of {A}-vectors: one grid per field")
-        ctx.eq(out.axes("world").tensor(), ref, f"sample(grid) of {A}-vectors == sample of world vectors")
+        if N > 1 and not per_field_target:
+            # a field sampled on the grid of ANOTHER field: the interpolation weights of the relatively rotated geometry are
+            # float-derived constants, identified with rationals only up to float32 resolution -> stated tolerance (|v| <= 1)
+            ctx.close(out.axes("world").tensor(), ref, 1e-4, f"sample(grid) of {A}-vectors == sample of world vectors (within 1e-4)")
+        else:
+            ctx.eq(out.axes("world").tensor(), ref, f"sample(grid) of {A}-vectors == sample of world vectors")
 
 
 def ob_warp(ctx, D, a, N):
